@@ -167,7 +167,7 @@ pub fn case<const COLS: usize, const PIS: usize>(seed: u64, case: u64, quick: bo
     }
     let n = trace[0].len();
     // ---- negative: corrupted traces through the real prover -----------------------------------
-    set_knobs(StarkProverKnobs { skip_constraint_check: true, lenient_truncation: true, aux_edits: vec![] });
+    set_knobs(StarkProverKnobs { skip_constraint_check: true, lenient_truncation: true, ..Default::default() });
     let rows: Vec<(usize, &str)> = vec![(0, "first_row"), (n - 1, "last_row(wrap-around)"), (n.saturating_sub(2), "second_to_last_row"), (rng.gen_range(0..n), "interior_row"), (rng.gen_range(0..n), "interior_row")];
     for (row, rname) in rows.iter().take(if quick { 4 } else { 5 }) {
         let col = rng.gen_range(0..COLS);
